@@ -146,7 +146,7 @@ Qed.
 
 (* the statement for a freshly scheduled task: no run before schedule time + delay *)
 Corollary never_before_delay cont ls now b d :
-  runs_from (now + d) (trun cont now (spawn now b (Some d)) ls) = true.
+  runs_from (now + d) (trun cont now (spawn b (Some d)) ls) = true.
 Proof. apply never_early. unfold not_before, spawn. cbn. lia. Qed.
 
 (* ---------- repeating tasks ---------- *)
@@ -182,5 +182,5 @@ Qed.
 
 (* a freshly scheduled repeating task: first tick at least one period after scheduling *)
 Corollary repeat_from_spawn cont ls now j p delay :
-  ticks_ok cont p 0 (now + p) (trun cont now (spawn now (BRepeat j p 0 0) delay) ls) = true.
+  ticks_ok cont p 0 (now + p) (trun cont now (spawn (repeat_new now j p) delay) ls) = true.
 Proof. apply (repeat_ticks cont j p ls now _ (now + p) 0%nat). reflexivity. Qed.
